@@ -610,6 +610,282 @@ def run_memcheck(res):
                         "runs": items})
 
 
+def run_deep(res):
+    """C01, stack depth: every size family at 256 KiB (4 MiB), three variants, parsed on a thread with a
+    256 KiB stack, in the unoptimised dev build (where a self-call is a real call) and in release."""
+    size = (256 << 10) if res.tier == "quick" else (4 << 20)
+    items = []
+
+    def one(prof):
+        b = build_variant("runtime", prof)
+        return prof, b, run([b, "deep", str(size)], timeout=3000)
+
+    with concurrent.futures.ThreadPoolExecutor(max_workers=2) as ex:
+        for prof, b, (rc, so, se, dt) in ex.map(one, ["dev", "release"]):
+            lines = so.splitlines()
+            m = re.search(r"deep: (\d+) cases", so)
+            bad = [l for l in lines if l.startswith("panic ")]
+            if rc != 0 and not m:
+                last = next((l for l in reversed(lines) if l.startswith("start ")), None)
+                if last is None:
+                    raise Machinery("deep leg (%s) failed to run: rc=%d %s" % (prof, rc, se[-800:]))
+                bad.append(last)
+            for l in bad[:3]:
+                a = l.split()
+                path = write_replay("C01-deep-%s-%s-%s.json" % (prof, a[1], a[2]), {
+                    "property": "C01", "kind": "deep", "profile": prof, "family": a[1], "variant": a[2], "size": size,
+                    "what": "a parse of a %d-byte %s input (%s) on a thread with a 256 KiB stack %s (exit status %d): %s" % (
+                        size, a[1], a[2], "panicked" if a[0] == "panic" else "killed the process", rc, se.strip().splitlines()[-1] if se.strip() else "")})
+                res.add_violation(path, "deep (%s build): family %s / %s at %d bytes does not return normally" % (prof, a[1], a[2], size))
+            if bad:
+                continue
+            n = int(m.group(1))
+            res.states += n
+            res.transitions += n
+            items.append({"profile": prof, "cases": n, "wall_s": round(dt, 1)})
+    res.engines.append({"engine": "stack-depth leg (digest deep): every size family x {complete, unterminated, error} at %d bytes, 256 KiB thread stack" % size,
+                        "runs": items})
+
+
+# ------------------------------------------------------------------------------------------
+# cross-target leg: the digest binary interpreted by Miri for 32-bit and big-endian targets
+# ------------------------------------------------------------------------------------------
+
+XT_TARGETS = [("i686-unknown-linux-gnu", "32-bit little-endian"), ("s390x-unknown-linux-gnu", "64-bit big-endian"),
+              ("mips-unknown-linux-gnu", "32-bit big-endian")]
+XT_PARTS = ["request-fields", "reason-field", "header-fields", "header-strings-default", "header-strings-options",
+            "request-lines", "status-lines", "chunk-sizes"]
+XT_ALL = list(range(len(XT_PARTS)))
+# property -> (parts, rule)
+XT_RULES = {
+    "C06": ([0, 5], "full"), "C07": ([1, 6], "full"), "C08": ([2, 3], "full"), "C14": ([4], "full"), "C09": ([7], "full"),
+    "C13": (XT_ALL, "full"), "C03": (XT_ALL, "frame"), "C10": (XT_ALL, "errkind"), "C05": (XT_ALL, "hygiene"),
+    "C04": (XT_ALL, "oob"), "C01": (XT_ALL, "panic"),
+}
+MIRIFLAGS_BY_TIER = {
+    # the quick tier trades Miri's typed-copy validity checks (its most expensive monitor, ~2x) for time;
+    # bounds, dangling-pointer, alignment, aliasing (Stacked Borrows) and uninitialised-read checks stay on
+    "quick": "-Zmiri-disable-isolation -Zmiri-disable-validation",
+    "thorough": "-Zmiri-disable-isolation",
+}
+
+
+def xt_targets(tier):
+    # quick: one 32-bit and one big-endian target; thorough adds the 32-bit big-endian one
+    return XT_TARGETS[:2] if tier == "quick" else XT_TARGETS
+
+
+def xt_hash(tier):
+    h = hashlib.sha1()
+    files = []
+    for root, _, names in os.walk(os.path.join(REPO, "src")):
+        files += [os.path.join(root, n) for n in names]
+    files += [os.path.join(REPO, "build.rs"), os.path.join(REPO, "Cargo.toml")]
+    for root, _, names in os.walk(os.path.join(HARNESS, "digest")):
+        files += [os.path.join(root, n) for n in names if n.endswith((".rs", ".toml"))]
+    for f in sorted(files):
+        h.update(f.encode())
+        with open(f, "rb") as fh:
+            h.update(fh.read())
+    h.update((tier + MIRIFLAGS_BY_TIER[tier] + "v5").encode())
+    return h.hexdigest()[:20]
+
+
+def miri_cmd(target, args):
+    cmd = ["cargo", "+nightly", "miri", "run", "-q", "--offline", "-p", "digest", "--target", target]
+    if REPO != "/repo":
+        cmd += ["--config", 'paths=["%s"]' % REPO]
+    return cmd + ["--"] + args
+
+
+def miri_env(tier="thorough"):
+    e = dict(ENV)
+    e["MIRIFLAGS"] = MIRIFLAGS_BY_TIER[tier]
+    return e
+
+
+def xt_shards(native, tier):
+    rc, so, se, _ = run([native, "xsizes", tier], timeout=120)
+    if rc != 0:
+        raise Machinery("digest xsizes failed: %s" % se[-400:])
+    per = 300 if tier == "quick" else 1500
+    out = []
+    for l in so.splitlines():
+        p, _, n = l.split()
+        k = max(1, -(-int(n) // per))
+        out += [(int(p), s, k) for s in range(k)]
+    return out
+
+
+def xt_compute(tier):
+    """Runs the cross-target corpus natively and under Miri for every target; returns the table."""
+    native = build_variant("runtime", "release")
+    shards = xt_shards(native, tier)
+    grid = ("3", "9", "small") if tier == "quick" else ("5", "16", "full")
+    table = {"tier": tier, "shards": shards, "native": {}, "targets": {}, "grid": {}, "ub": []}
+    for (p, s, k) in shards:
+        rc, so, se, _ = run([native, "xrun", tier, str(p), str(s), str(k)], timeout=600)
+        if rc != 0:
+            raise Machinery("native xrun failed: %s" % se[-400:])
+        table["native"]["%d/%d/%d" % (p, s, k)] = so.splitlines()[0]
+    # compile once per target (the parallel runs below then only execute)
+    def warm(t):
+        return t, run(miri_cmd(t, ["xsizes", "quick"]), cwd=HARNESS, env=miri_env(tier), timeout=1800)
+    with concurrent.futures.ThreadPoolExecutor(max_workers=3) as ex:
+        for t, (rc, so, se, dt) in ex.map(warm, [t for t, _ in xt_targets(tier)]):
+            if rc != 0:
+                raise Machinery("Miri cannot build/run the digest binary for %s:\n%s" % (t, se[-1500:]))
+    jobs = []
+    for t, _ in xt_targets(tier):
+        for (p, s, k) in shards:
+            jobs.append((t, "part", (p, s, k), ["xrun", tier, str(p), str(s), str(k)]))
+        for c in range(3):
+            jobs.append((t, "grid", c, ["scangrid", grid[0], grid[1], str(c), grid[2]]))
+
+    def one(job):
+        t, kind, key, args = job
+        return job, run(miri_cmd(t, args), cwd=HARNESS, env=miri_env(tier), timeout=7200)
+
+    t0 = time.time()
+    with concurrent.futures.ThreadPoolExecutor(max_workers=os.cpu_count() or 16) as ex:
+        for (t, kind, key, args), (rc, so, se, dt) in ex.map(one, jobs):
+            tt = table["targets"].setdefault(t, {})
+            ub = "Undefined Behavior" in se or "error: unsupported operation" in se or (rc != 0 and kind == "part")
+            if kind == "part":
+                p, s, k = key
+                line = so.splitlines()[0] if so.splitlines() else ""
+                tt["%d/%d/%d" % (p, s, k)] = line
+                if ub or not line:
+                    table["ub"].append({"target": t, "part": p, "shard": s, "nshards": k, "stderr": se[-1500:], "exit": rc})
+            else:
+                m = re.search(r"scangrid (\d+) (\d+)", so)
+                table["grid"]["%s/%d" % (t, key)] = {"runs": int(m.group(1)) if m else 0, "bad": int(m.group(2)) if m else -1,
+                                                    "first": [l for l in so.splitlines() if l.startswith("SCAN")][:3], "exit": rc,
+                                                    "stderr": "" if m else se[-1500:], "args": args}
+    table["wall_s"] = round(time.time() - t0, 1)
+    return table
+
+
+def xt_table(tier):
+    d = os.path.join(TARGET, "xcache")
+    os.makedirs(d, exist_ok=True)
+    path = os.path.join(d, "%s-%s.json" % (xt_hash(tier), tier))
+    if os.path.exists(path):
+        with open(path) as f:
+            t = json.load(f)
+        t["cached"] = True
+        return t
+    t = xt_compute(tier)
+    tmp = path + ".%d" % os.getpid()
+    with open(tmp, "w") as f:
+        json.dump(t, f)
+    os.replace(tmp, path)
+    t["cached"] = False
+    return t
+
+
+def xt_parse_dump(text):
+    rows = {}
+    for l in text.splitlines():
+        a = l.split()
+        if len(a) < 6 or "=" not in l:
+            continue
+        key = " ".join(a[:4])
+        kv = dict(x.split("=", 1) for x in re.findall(r"(\w+=(?:\[[^\]]*\]|\S+))", l))
+        rows[key] = (l, kv)
+    return rows
+
+
+def xt_offender(rule, nrow, trow):
+    """Does this input violate the property, given its native and cross-target result lines?"""
+    (nl, n), (tl, t) = nrow, trow
+    if rule == "full":
+        return (n["st"], n["n"], n["fields"]) != (t["st"], t["n"], t["fields"])
+    if rule == "frame":
+        return n["frame"] != t["frame"] and "E" not in (n["frame"], t["frame"]) and "PANIC" not in (n["frame"], t["frame"])
+    if rule == "errkind":
+        return n["errkind"] != t["errkind"] and ((n["errkind"] != "0" and t["errkind"] != "0") or "7" in (n["errkind"], t["errkind"]))
+    if rule == "hygiene":
+        return t["hygiene_bad"] == "1"
+    if rule == "oob":
+        return t["out_of_buffer"] == "1"
+    if rule == "panic":
+        return t["frame"] == "PANIC"
+    return False
+
+
+def run_xtarget(res, prop):
+    """Results on targets this host cannot execute: the digest binary interpreted by Miri."""
+    tier = res.tier
+    table = xt_table(tier)
+    native = build_variant("runtime", "release")
+    col = {"full": 2, "frame": 3, "errkind": 4, "hygiene": 5, "oob": 6, "panic": 7}
+    total = 0
+    if prop == "C12" or prop == "C13" or prop == "C01":
+        for key, g in sorted(table["grid"].items()):
+            t, c = key.rsplit("/", 1)
+            if g["bad"] < 0:
+                if prop == "C01" and ("Undefined Behavior" in g["stderr"]):
+                    path = write_replay("C01-xtarget-grid-%s-%s.json" % (t, c), {"property": "C01", "kind": "xtarget-grid", "target": t, "args": g["args"],
+                                                                                 "what": "Miri reports undefined behaviour in a scanner on %s" % t, "report": g["stderr"]})
+                    res.add_violation(path, "Miri (%s): undefined behaviour in the scanner grid" % t)
+                    continue
+                raise Machinery("scanner grid under Miri (%s class %s) did not run: %s" % (t, c, g["stderr"][-600:]))
+            total += g["runs"]
+            if g["bad"] > 0 and prop in ("C12", "C13"):
+                path = write_replay("%s-xtarget-grid-%s-%s.json" % (prop, t, c), {"property": prop, "kind": "xtarget-grid", "target": t, "args": g["args"],
+                                                                                "what": "a scanner stops at the wrong byte on %s: %s" % (t, g["first"][:1])})
+                res.add_violation(path, "scanner grid on %s: %d wrong stop positions, first: %s" % (t, g["bad"], g["first"][:1]))
+    parts, rule = XT_RULES.get(prop, ([], None))
+    compared = 0
+    for t, tdesc in xt_targets(tier):
+        if rule is None:
+            break
+        reported = 0
+        for (p, s, k) in table["shards"]:
+            if p not in parts:
+                continue
+            key = "%d/%d/%d" % (p, s, k)
+            nl = table["native"][key].split()
+            tl = (table["targets"][t].get(key) or "").split()
+            died = [u for u in table["ub"] if u["target"] == t and u["part"] == p and u["shard"] == s]
+            if died and prop == "C01":
+                path = write_replay("C01-xtarget-%s-%d-%d.json" % (t, p, s), {"property": "C01", "kind": "xtarget-shard", "target": t, "tier": tier, "part": p, "shard": s, "nshards": k,
+                                                                              "what": "the interpreted run on %s ended abnormally (undefined behaviour, abort or unsupported operation)" % t, "report": died[0]["stderr"]})
+                res.add_violation(path, "Miri (%s, part %s): %s" % (t, XT_PARTS[p], (died[0]["stderr"].strip().splitlines() or ["abnormal end"])[-1][:200]))
+                continue
+            if len(tl) < 8:
+                if died:
+                    continue  # reported under C01
+                raise Machinery("no result line for %s %s" % (t, key))
+            compared += int(nl[1])
+            same = nl[col[rule]] == tl[col[rule]] if rule in ("full", "frame", "errkind") else tl[col[rule]] == "0"
+            if same or reported >= 3:
+                continue
+            # narrow down to one input
+            rc, so, se, _ = run([native, "xdump", tier, str(p), str(s), str(k)], timeout=600)
+            rc2, so2, se2, _ = run(miri_cmd(t, ["xdump", tier, str(p), str(s), str(k)]), cwd=HARNESS, env=miri_env(tier), timeout=7200)
+            nrows, trows = xt_parse_dump(so), xt_parse_dump(so2)
+            for key2, nrow in nrows.items():
+                trow = trows.get(key2)
+                if trow is None or not xt_offender(rule, nrow, trow):
+                    continue
+                e, cfg, cap, hx = key2.split()
+                path = write_replay("%s-xtarget-%s-%s.json" % (prop, t.split("-")[0], hashlib.sha1(key2.encode()).hexdigest()[:12]), {
+                    "property": prop, "kind": "xtarget", "target": t, "target_kind": tdesc, "rule": rule, "entry": e, "config": int(cfg), "capacity": int(cap), "input_hex": hx,
+                    "input": bytes.fromhex(hx).decode("latin-1"), "native": nrow[0], "cross": trow[0],
+                    "what": "on %s (%s, interpreted by Miri) the result differs from the native one in a way %s forbids" % (t, tdesc, prop)})
+                res.add_violation(path, "%s (%s): %s" % (t, tdesc, trow[0][:160]))
+                reported += 1
+                break
+    res.states += compared + total
+    res.transitions += compared + total
+    res.engines.append({"engine": "cross-target leg: digest binary interpreted by Miri (MIRIFLAGS=%s)" % MIRIFLAGS_BY_TIER[tier],
+                        "targets": ["%s (%s)" % x for x in xt_targets(tier)], "rule": rule, "parts": [XT_PARTS[p] for p in parts],
+                        "inputs_compared_per_target": compared // max(1, len(xt_targets(tier))), "scanner_grid_executions": total,
+                        "table_cached": table.get("cached", False), "interpretation_wall_s": table.get("wall_s")})
+
+
 # ------------------------------------------------------------------------------------------
 # dispatch
 # ------------------------------------------------------------------------------------------
@@ -639,6 +915,8 @@ def run_for(prop, tier, res):
         extra.append("thread timing is decided by loom's exhaustive schedules, not by racing free-running processes (that would be sampling)")
     elif prop == "C01":
         run_memcheck(res)
+        if not res.violations:
+            run_deep(res)
         extra.append("guard pages see reads past a page-flush buffer end/start; the memcheck leg sees any read outside an exact-size heap buffer on its (smaller) enumerated corpus")
     elif prop == "C09":
         run_digests(res, "C09", partitions=[18, 19])
@@ -653,6 +931,9 @@ def run_for(prop, tier, res):
     elif prop == "C20":
         run_cachegrind(res)
         extra.append("cursor counters see work done through the cursor API; the instruction-count leg sees everything, on 3 sizes per family")
+    if (prop in XT_RULES or prop == "C12") and not res.violations:
+        run_xtarget(res, prop)
+        extra.append("32-bit and big-endian targets are not executed natively: the cross-target leg interprets a reduced corpus with Miri (i686, s390x, mips) and compares with the native run")
     return extra
 
 
@@ -716,6 +997,36 @@ def replay(rep, path):
         got = run([b, "info"])[1].strip()
         print("variant %s: build selects %r, documented %r" % (rep["variant"], got, rep["expected"]))
         return 1 if got != rep["expected"] else 0
+    if kind == "xtarget":
+        native = build_variant("runtime", "release")
+        args = ["xone", rep["entry"], str(rep["config"]), str(rep["capacity"]), rep["input_hex"]]
+        rc, so, se, _ = run([native] + args, timeout=120)
+        rc2, so2, se2, _ = run(miri_cmd(rep["target"], args), cwd=HARNESS, env=miri_env(), timeout=3000)
+        print("native : %s" % so.strip())
+        print("%s: %s" % (rep["target"], so2.strip() or se2[-1500:]))
+        n, t = xt_parse_dump(so), xt_parse_dump(so2)
+        if not t:
+            return 1
+        k = next(iter(n))
+        return 1 if xt_offender(rep["rule"], n[k], t[k]) else 0
+    if kind == "xtarget-grid":
+        rc, so, se, _ = run(miri_cmd(rep["target"], rep["args"]), cwd=HARNESS, env=miri_env(), timeout=7200)
+        print("\n".join(so.splitlines()[-8:]))
+        print(se[-1500:])
+        return 0 if rc == 0 else 1
+    if kind == "xtarget-shard":
+        rc, so, se, _ = run(miri_cmd(rep["target"], ["xrun", rep["tier"], str(rep["part"]), str(rep["shard"]), str(rep["nshards"])]), cwd=HARNESS, env=miri_env(), timeout=7200)
+        print(so)
+        print(se[-2500:])
+        return 0 if rc == 0 else 1
+    if kind == "deep":
+        b = build_variant("runtime", rep["profile"])
+        rc, so, se, _ = run([b, "deep", str(rep["size"]), rep["family"]], timeout=3000)
+        print("\n".join(so.splitlines()[-6:]))
+        print("\n".join(se.splitlines()[-4:]))
+        bad = rc != 0 or any(l.startswith("panic ") for l in so.splitlines())
+        print("exit status %d" % rc)
+        return 1 if bad else 0
     if kind == "memcheck":
         binary = build_variant("runtime", "release")
         rc, so, se, _ = run(["valgrind", "-q", "--error-exitcode=9", "--partial-loads-ok=no", binary, "memcheck", str(rep["lmax"]), "--backend", rep["backend"]], timeout=3000)
